@@ -9,7 +9,7 @@ From Coq Require Import List Arith Bool.
 From GN Require Import Model.Chan Model.SyncChan Proof.Chan_proofs Proof.Chan2_proofs Proof.SyncChan_proofs.
 Import ListNotations.
 
-(* the invariant holds initially and after every step of every schedule *)
+(* the invariant y_holds initially and after every step of every schedule *)
 Theorem c01_invariant : forall qc until ths sched, forallb init_thread ths = true ->
   Inv (run (init qc until ths) sched).
 Proof. intros. apply inv_run. apply inv_init. assumption. Qed.
@@ -48,10 +48,18 @@ Theorem c01_single_sender : forall s, Inv s -> cnt owns (threads s) = b2n (runni
 Proof. exact I_token. Qed.
 Print Assumptions c01_single_sender.
 
-(* synchronous channel: the write lock serialises whole calls *)
+(* synchronous channel: the write lock serialises whole calls (at most one thread is inside
+   transport.Write/Flush); each payload reaches the transport at most once; a call that returned
+   success has its payload on the transport and flushed; a call refused with the close error
+   transmitted nothing.  For every program, every number of racing closers, every schedule and
+   every injected transport failure. *)
 Theorem c01_sync : forall ths sched, sc_wf ths = true ->
   let s := sc_run (sc_init ths) sched in
-  SInv s /\ (forall p, In p (sc_tlog s) -> In p (sc_accepted s)) /\ NoDup (sc_tlog s).
+  NoDup (sc_tlog s) /\
+  (forall i j ti tj, nth_error (sc_threads s) i = Some ti -> nth_error (sc_threads s) j = Some tj ->
+     y_holds ti = true -> y_holds tj = true -> i = j) /\
+  (forall j t p, nth_error (sc_threads s) j = Some t -> In p (y_oks t) -> In p (firstn (sc_flushed s) (sc_tlog s))) /\
+  (forall j t p, nth_error (sc_threads s) j = Some t -> In p (y_refused t) -> ~ In p (sc_tlog s)).
 Proof. exact sync_correct. Qed.
 Print Assumptions c01_sync.
 
